@@ -10,6 +10,7 @@ for d in seeded/${1:-*}/; do
   id=$(basename $d)
   checks=$(/venv/bin/python -c "import json;print(' '.join(json.load(open('$d/meta.json'))['caught_by_quick_checks']))")
   first=$(echo $checks | cut -d' ' -f1)
+  if grep -q '"superseded"' $d/meta.json; then echo "$id SUPERSEDED (its lines were rewritten by a later repair)"; continue; fi
   git -C $WT reset -q --hard; git -C $WT clean -fdq
   PATCH=$PWD/$d/patch.diff
   if ! git -C $WT apply $PATCH 2>/dev/null; then
